@@ -671,6 +671,7 @@ func emitServe(t *tracer, m *cors.Middleware, dbg bool, rs reqSpec, pre http.Hea
 	r := rs.build()
 	var s served
 	w := newRec()
+	w.noAppend = layer != 0 // the layered variants read the live header map afterwards
 	for k, v := range pre {
 		if v != nil && len(v) == 0 {
 			w.h[k] = make([]string, 0, cap(v)) // a key with no field line: empty but not nil, possibly with spare capacity
